@@ -44,20 +44,25 @@ CLAIMED = {
          'with the mirror and with a fresh-interpreter parse of the flattened text, and by 1-4 locations x 1-3 readers with the file '
          'present at random subsets, relative and absolute names.',
          BASE + 'Partial: path joining, isfile and file I/O are the OS\'s; package-relative names (resource_reader) are not modelled; '
-         'the flatten-equivalence for the whole store is checked by the fresh-interpreter comparison, not yet a Lean theorem.'),
+         'imports whose module registers configurables are modelled (Stmt.imp regs) and generated.'),
  'C15': ('Theorems skip_decision / known_never_skipped / skipped_binding_is_noop / skipped_block_is_noop / missing_import / '
          'noop_can_be_deleted (deleting no-op statements anywhere in a text does not change the result) / unlisted_unknown_errors / '
          'placeholder_kept / unknown_reference_errors / placeholder_raises_on_use / placeholder_rejected_at_finalize hold for every '
          'state, text and skip_unknown form; tied to gin.config by texts mixing known/unknown targets, references, macros, blocks and '
          'imports under every form of skip_unknown, compared with the mirror and with a fresh-interpreter parse of the reduced text.',
-         BASE + 'Static registration; D20 (an unknown unlisted reference inside a skipped statement) excluded by hypothesis.'),
+         BASE + 'Static registration on the statement mirror (with imports whose module registers a configurable: known_is_judged_when_reached, '
+         'reference_known_after_import); dynamic registration on the object-graph mirror of C19 (Props/C15b: dyn_known_never_skipped, '
+         'dyn_unknown_covered_deleted, dyn_unknown_uncovered_errors, dyn_reference_placeholder, dyn_missing_import) with files generated by '
+         'the C19 generator plus unknown names, every form of skip_unknown; found and repaired D30. D20 (an unknown unlisted reference '
+         'inside a skipped statement) excluded by hypothesis; under dynamic registration a written name that no import provides but that '
+         'ends a registered selector is not generated (the registry-suffix test of _should_skip is not in the object-graph mirror).'),
  'C16': ('Theorems failure_stops / success_continues / failed_parse_ignores_rest / failing_statement_changes_nothing / '
          'parse_keeps_lock_and_registry (mutual induction over nested includes) / include_extends_chain / semantic_error_located / '
          'provenance_last_setter hold for every statement list, include depth and fault position; tied to gin.config by injecting '
          'every fault kind of the property at every statement position of generated include trees in real files, comparing store, '
          'provenance comments, recorded imports, lock flag, scope and the error location chain with the mirror and with a '
          'fresh-interpreter parse of the flattened prefix. D17 is a recorded known finding.',
-         BASE + 'The tokenizer and parser proper are outside this model (C02/C03 not yet built); location chains are read from the '
+         BASE + 'The tokenizer and parser proper are outside this model (they are C02/C03); location chains are read from the '
          'exception message; statements rendered one per line.'),
  'C17': ('Theorems proxy_reads_agree / fallback_agrees_off_slots / fallback_shadows_slots / fallback_loses_args about the attribute-lookup '
          'protocol of the exception proxy (data descriptors of the type, instance dict, __getattr__); the real code is run on every '
@@ -122,7 +127,10 @@ CLAIMED = {
          'interactive mode, resolve %abbreviations at parse time, make consuming calls and finalize under random active scopes.',
          BASE + 'Partial: that two histories reach the same store is observed, not proved (evaluation_depends_only_on_state is '
          'the trivial half); macro names are identifiers or scope-like a/b; acyclic definitions.'),
- 'C06': ('Theorems emit_order_independent (permutation invariance: two stores with the same bindings made in any order emit the same '
+ 'C06': ('Theorems parse_roundtrip / parse_roundtrip_reachable (the statements the text spells, parsed into the cleared configuration, '
+         'restore exactly the representable bindings: for every configuration reachable by binding) / roundtrip_reachable / '
+         'config_str_roundtrip / printed_resolves (the printed name resolves back, class kept for methods) / imports_order_independent '
+         '(the import section is a function of the set of recorded statements) / emit_order_independent (permutation invariance: two stores with the same bindings made in any order emit the same '
          'document; insertion sort yields the unique sorted permutation, keyLe is a total preorder whose ties are equal sort keys) / '
          'emit_only_representable / emit_macros_representable / emit_sections_from_store / emit_params_complete / mem_sortBy / '
          'length_sortBy about the structural mirror of _config_str (which sections and bindings are printed, under which minimal '
@@ -133,8 +141,10 @@ CLAIMED = {
          'several (max_line_length, continuation_indent).',
          BASE + 'Partial: repr / pprint.pformat and line wrapping are CPython\'s (text level is checked on the real code only); '
          'permutation invariance is a Lean theorem under the hypothesis that distinct keys have distinct sort keys (true when components are '
-         'identifiers: the tie-break is the key\'s own spelling) and is also checked by the two-order oracle; static registration only (import '
-         'lines / dynamic registration are C19, not built); D24 is a recorded finding.'),
+         'identifiers: the tie-break is the key\'s own spelling) and is also checked by the two-order oracle; the round-trip theorems are at '
+         'statement level (text to statements is C03, literal text to value is C02 / CPython) under stated side conditions (StoreOK, TextOK: '
+         'e.g. no macro named like a constant); bindings under dynamic registration are round-tripped by the C19 check; D24 is a recorded '
+         'finding, D10, D11, D29 were repaired.'),
  'C07': ('Theorems operative_suffices_to_replay (for any sequence of calls from an empty record with fixed bindings: in the configuration '
          'holding exactly the final operative record, every accepted call is accepted again, Gin supplies it exactly the values it supplied the '
          'first time and it records what it recorded; with replay_supplies_same / replay_records_same / runCalls_invariant) / operative_param (exact per-parameter characterisation of what one call records) / operative_excludes_caller_supplied / '
